@@ -143,9 +143,12 @@ def cases(tier, seed):
         base = {'src': src, 'model': key}
         if src == 'gen':
             base['seed'] = seed
-        np = len(mg.plans(schema))
-        for p in range(np):
-            cs.append(('enc', dict(base, plan=p)))
+        for p, plan in enumerate(mg.plans(schema)):
+            if sum(1 for v in plan.values() if v == 'sym') >= 2:
+                # two symbolic leaves: product of their path counts - start early and split over the workers
+                cs.append(('enc', dict(base, plan=p), {'weight': 30, 'split_depth': 6}))
+            else:
+                cs.append(('enc', dict(base, plan=p)))
         nl = min(8, len(schema) + 1)
         for k in range(nl + 1):
             for form, vlen, crit in ((1, 0, 'even'), (1, 2, 'odd'), (3, 1, 'even'), (3, 0, 'odd')):
